@@ -5,12 +5,15 @@ mod core;
 mod model;
 mod registry;
 
+mod c01;
 mod c02;
+mod e3;
 mod c03;
 mod e2;
 mod store;
 mod c04;
 mod c05;
+mod c06;
 mod c07;
 mod c08;
 mod c09;
@@ -29,10 +32,12 @@ use crate::registry::DynPart;
 fn parts_for(id: &str) -> Option<(&'static str, Vec<Box<dyn DynPart>>, Vec<String>)> {
     let none: Vec<String> = vec![];
     Some(match id {
+        "C01" => ("C01", c01::parts(), none),
         "C02" => ("C02", c02::parts(), none),
         "C03" => ("C03", c03::parts(), none),
         "C04" => ("C04", c04::parts(), none),
         "C05" => ("C05", c05::parts(), none),
+        "C06" => ("C06", c06::parts(), none),
         "C07" => ("C07", c07::parts(), none),
         "C08" => ("C08", c08::parts(), none),
         "C09" => ("C09", c09::parts(), none),
